@@ -1364,7 +1364,16 @@ impl Broker {
                     if d.nowait {
                         self.no_reply(ch);
                     } else {
-                        let name = if d.queue.is_empty() { format!("amq.gen-{}", self.uniq()) } else { d.queue.clone() };
+                        // a generated name is unique; when the declare carries an "x-mark" argument (unique per
+                        // operation) it is derived from it, so that the wire oracle can predict it
+                        let name = if d.queue.is_empty() {
+                            match d.arguments.get("x-mark") {
+                                Some(amq_protocol::types::AMQPValue::LongString(m)) => format!("amq.gen-{}", m),
+                                _ => format!("amq.gen-{}", self.uniq()),
+                            }
+                        } else {
+                            d.queue.clone()
+                        };
                         let ok = queue::DeclareOk { queue: name, message_count: self.uniq() as u32, consumer_count: self.uniq() as u32 };
                         self.reply(ch, AMQPClass::Queue(Q::DeclareOk(ok)));
                     }
